@@ -118,13 +118,20 @@ IdnaTable == { <<<<9731>>, <<120,110,45,45,110,51,104>>>>,                      
                <<<<98,252,99,104,101,114>>, <<120,110,45,45,98,99,104,101,114,45,107,118,97>>>>,   \* buecher
                <<<<20363,12360>>, <<120,110,45,45,114,56,106,122,52,53,103>>>>,
                <<<<109,252,110,99,104,101,110>>, <<120,110,45,45,109,110,99,104,101,110,45,51,121,97>>>> }
-IdnaKnown(l) == IsAsciiSeq(l) \/ \E p \in IdnaTable : p[1] = l
-IdnaLabel(l) == IF IsAsciiSeq(l) THEN l ELSE (CHOOSE p \in IdnaTable : p[1] = l)[2]
+\* A trace may additionally log, per non-ASCII label of the BARE host, the result of the IDNA codec (trusted input, a sequence
+\* of <<label, A-label>> pairs); the logged pairs take precedence over the built-in table.
+LoggedIdna(tbl) == {<<tbl[i][1], tbl[i][2]>> : i \in 1..Len(tbl)}
+IdnaPairs(l, tbl) == LET g == {p \in LoggedIdna(tbl) : p[1] = l /\ IsAsciiSeq(p[2])} IN IF g # {} THEN g ELSE {p \in IdnaTable : p[1] = l}
+IdnaKnownT(l, tbl) == IsAsciiSeq(l) \/ IdnaPairs(l, tbl) # {}
+IdnaLabelT(l, tbl) == IF IsAsciiSeq(l) THEN l ELSE (CHOOSE p \in IdnaPairs(l, tbl) : TRUE)[2]
 RECURSIVE LStripDots(_)
 LStripDots(s) == IF s # <<>> /\ Head(s) = 46 THEN LStripDots(Tail(s)) ELSE s
 HostPart(d) == LET c == FindFrom(d, <<58>>, 1) IN LStripDots(IF c = 0 THEN d ELSE Take(d, c - 1))
-DomainKnown(d) == LET ls == SplitOn(HostPart(d), 46, <<>>) IN \A i \in 1..Len(ls) : IdnaKnown(ls[i])
-DomainCanon(d) == LET ls == SplitOn(HostPart(d), 46, <<>>) IN JoinWith([i \in 1..Len(ls) |-> IdnaLabel(ls[i])], 46)
+\* canonical Domain attribute: port dropped, leading dots dropped, every label to its A-label (ASCII labels unchanged, also their case)
+DomainKnownT(d, tbl) == LET ls == SplitOn(HostPart(d), 46, <<>>) IN \A i \in 1..Len(ls) : IdnaKnownT(ls[i], tbl)
+DomainCanonT(d, tbl) == LET ls == SplitOn(HostPart(d), 46, <<>>) IN JoinWith([i \in 1..Len(ls) |-> IdnaLabelT(ls[i], tbl)], 46)
+DomainKnown(d) == DomainKnownT(d, <<>>)
+DomainCanon(d) == DomainCanonT(d, <<>>)
 
 \* Path: contract = printable ASCII without ';' (RFC 6265 path-value, no CTLs) and without SP, carrying the same
 \* path once percent-decoded; the implementation-shaped rendering quotes everything outside PathSafe.
@@ -135,7 +142,7 @@ PathAttrOK(txt, p) == /\ \A i \in 1..Len(txt) : txt[i] >= 33 /\ txt[i] <= 126 /\
 
 \* the attribute record `a` (same shape in the model and in recorded traces):
 \*  path_set, path, dom_set, domain, ma_kind ("none"|"int"|"td"), ma_neg, ma_digits, exp_kind ("none"|"dt"|"ts"|"str"),
-\*  exp_days, exp_secs, exp_text, sync, secure, httponly, ss_set, samesite, partitioned
+\*  exp_days, exp_secs, exp_text, sync, secure, httponly, ss_set, samesite, partitioned, idna (logged <<label, A-label>> pairs, may be <<>>)
 MaxAgeText(a) == (IF a.ma_neg THEN <<45>> ELSE <<>>) \o DigitChars(a.ma_digits)
 MaxAgeNum(a) == (IF a.ma_neg THEN 0 - 1 ELSE 1) * NumOf(a.ma_digits, 0)
 SameSiteBad(a) == a.ss_set /\ SameSiteCanon(a.samesite) = <<>>
@@ -146,7 +153,7 @@ ExpiresText(a, synctext) == IF a.exp_kind = "str" THEN a.exp_text
 \* canonical attribute list: fixed order Domain, Expires, Max-Age, Secure, HttpOnly, Path, SameSite, Partitioned.
 \* `synctext` stands for the Expires value when it is derived from the clock; `pathtext` for the rendering of the path
 ExpectedAttrs(a, synctext, pathtext) ==
-     (IF a.dom_set THEN <<S_Domain \o DomainCanon(a.domain)>> ELSE <<>>)
+     (IF a.dom_set THEN <<S_Domain \o DomainCanonT(a.domain, a.idna)>> ELSE <<>>)
   \o (IF HasExpires(a) THEN <<S_Expires \o ExpiresText(a, synctext)>> ELSE <<>>)
   \o (IF a.ma_kind # "none" THEN <<S_MaxAge \o MaxAgeText(a)>> ELSE <<>>)
   \o (IF a.secure \/ a.partitioned THEN <<S_Secure>> ELSE <<>>)
